@@ -113,6 +113,22 @@ func c03(tier string, args []string) int {
 			[]requests.SigningTask{{MessageID: "r-first", RangeStart: 0, RangeEnd: 1}, {MessageID: ref0[0].ID, File: "explicit", Payload: []byte("explicit payload under a validator's index")}},
 		)
 	}
+	// two batches of ONE round that name their messages alike (a corrected file proposed again under
+	// its old identifier; overlapping baked ranges): the second is run after the first was
+	// completed, on the same stores - what is stored and exported for each batch is that batch's
+	chainAfter := map[int]int{}
+	firstChained := len(batches)
+	{
+		first := firstChained
+		batches = append(batches,
+			[]requests.SigningTask{{MessageID: "report", File: "report.txt", Payload: []byte("first version")}, {MessageID: "annex", File: "annex.txt", Payload: []byte("annex, first version")}},
+			[]requests.SigningTask{{MessageID: "report", File: "report.txt", Payload: []byte("second version")}, {MessageID: "annex", File: "annex-2.txt", Payload: []byte("annex, second version")}},
+			[]requests.SigningTask{{MessageID: "r", RangeStart: 0, RangeEnd: 3}},
+			[]requests.SigningTask{{MessageID: "r2", RangeStart: 1, RangeEnd: 4}, {MessageID: "report", File: "x", Payload: []byte("third version")}},
+		)
+		chainAfter[first+1] = first
+		chainAfter[first+3] = first + 2
+	}
 	sw := SetupSignWorld(r, 3, 2, worldx.NumWorkers())
 	defer sw.Close()
 
@@ -128,7 +144,8 @@ func c03(tier string, args []string) int {
 			suite := oracle.Suite()
 			krs, _ := k.W.Airs[0].M.GetBLSKeyrings()
 			pubPoly := krs[sw.Round].PubPoly
-			for bi := range ch {
+			var runOne func(bi int, start *worldx.State) *worldx.State
+			runOne = func(bi int, start *worldx.State) *worldx.State {
 				tasks := batches[bi]
 				batchID := fmt.Sprintf("c03-batch-%d", bi)
 				var ids []string
@@ -181,7 +198,15 @@ func c03(tier string, args []string) int {
 				for _, x := range ref {
 					refByID[x.ID] = x
 				}
-				s1 := k.PostMsg(sw.Init, m, "propose")
+				if prev, ok := chainAfter[bi]; ok {
+					// a later batch of the same round: the earlier one was completed first
+					start = runOne(prev, sw.Init)
+					if start == nil {
+						r.Infra("the first batch of a chained pair did not complete")
+					}
+					trace["earlier_batch_of_the_round"] = prev
+				}
+				s1 := k.PostMsg(start, m, "propose")
 				s1, err := k.DrainEager(s1, nil)
 				if err != nil {
 					r.Infra("drain: %v", err)
@@ -190,7 +215,7 @@ func c03(tier string, args []string) int {
 				evals++
 				mu.Unlock()
 				accepted := k.C.Snapshot(s1.Snap[0]).RoundState(sw.Round) == string(sif.StateSigningAwaitPartialSigns)
-				if bi >= firstAmbiguous {
+				if bi >= firstAmbiguous && bi < firstChained {
 					for i := 0; i < 3; i++ {
 						st := k.C.Snapshot(s1.Snap[i]).RoundState(sw.Round)
 						if st == string(sif.StateSigningAwaitPartialSigns) || len(k.Pending(s1, i)) > 0 {
@@ -198,7 +223,7 @@ func c03(tier string, args []string) int {
 							break
 						}
 					}
-					continue
+					return nil
 				}
 				if len(ref) == 0 {
 					// nothing to sign: whatever the nodes do, nothing may be signed or stored
@@ -207,11 +232,11 @@ func c03(tier string, args []string) int {
 							r.Violation("C03/empty-batch-asks-for-signatures", fmt.Sprintf("batch %v expands to no message but node %d asks its operator to sign", ids, i), trace)
 						}
 					}
-					continue
+					return nil
 				}
 				if !accepted {
 					r.Violation("C03/proposal-refused", fmt.Sprintf("batch %v (%d messages in the reference expansion) was not accepted: node 0 is in %s", ids, len(ref), k.C.Snapshot(s1.Snap[0]).RoundState(sw.Round)), trace)
-					continue
+					return nil
 				}
 				cur := s1
 				var orders [][]string
@@ -309,6 +334,10 @@ func c03(tier string, args []string) int {
 					r.Sample(map[string]interface{}{"tasks": ids, "reference_messages": refOrder})
 				}
 				mu.Unlock()
+				return fin
+			}
+			for bi := range ch {
+				runOne(bi, sw.Init)
 			}
 		}(k)
 	}
